@@ -476,6 +476,17 @@ namespace
                     if (fs.size() != ms.size()) violate("C02/flat_set-size", "size()=%zu, std::set %zu", fs.size(), ms.size());
                     for (auto &kv : mm)
                         if (fm.count(kv.first) != 1 || fm.at(kv.first) != kv.second) violate("C02/flat_map-content", "key %d lost or changed", kv.first);
+                    {
+                        // iteration (in whatever order) yields exactly the stored pairs, once each
+                        std::map<int, int> seen;
+                        size_t n = 0;
+                        for (auto it = fm.begin(); it != fm.end(); ++it, ++n) seen[it->first] = it->second;
+                        if (n != mm.size() || seen != mm) violate("C02/flat_map-iteration", "begin()..end() yields %zu pairs / %zu distinct keys, std::map holds %zu", n, seen.size(), mm.size());
+                        std::set<int> sseen;
+                        n = 0;
+                        for (auto it = fs.begin(); it != fs.end(); ++it, ++n) sseen.insert(*it);
+                        if (n != ms.size() || sseen != ms) violate("C02/flat_set-iteration", "flat_set iteration yields %zu keys, std::set holds %zu", n, ms.size());
+                    }
                     for (int q = -3; q < 13; q++)
                     {
                         if (fs.count(q) != ms.count(q)) violate("C02/flat_set-content", "count(%d) differs from std::set", q);
